@@ -3,6 +3,7 @@ package props
 import (
 	"encoding/hex"
 	"fmt"
+	"time"
 
 	"verifharness/mon"
 	"verifharness/world"
@@ -12,6 +13,7 @@ func init() { Registry["C11"] = c11 }
 
 // C11 — every honestly produced, in-date quote is accepted at every checking level.
 func c11(x *mon.Ctx) {
+	enableTwins(x)
 	x.Level = "exploration"
 	x.Rule = "honest worlds from the generator (fresh PKI per world; random header/body; auth data 0..1000 bytes, extra bytes 0..3000, optional NUL; SVN vectors incl. 0/255; matching UpToDate TCB level at position 0..5 behind non-matching levels of any status; TEE_TCB_SVN[1] in 0..9 with module identities; random masks; FMSPC/hex case; CRLs with 0..50 unrelated serials; five distinct instants inside all windows, 1/8 exactly at nextUpdate) x 3 checking levels x entry forms; plus the two Intel sample quotes under the embedded root. Must-accept oracle; a case is non-trivial when the reference verifier accepts it too; distinct = distinct (world, level, form)."
 	x.Assume = []string{"Go crypto/x509, encoding/pem, encoding/json are correct", "ECDSA P-256 signatures made by the harness are valid"}
@@ -40,6 +42,27 @@ func c11(x *mon.Ctx) {
 			}
 		}
 	})
+	// the root certificate carried in the quote is another issue of the trusted root (same name and key; other serial number
+	// and validity period — CAs re-issue their roots): a trust anchor is a name and a key, the quote need not carry the very
+	// certificate the verifier holds. Run under the pool here and, in the default-root phase, with that root as embedded root.
+	{
+		n := x.Pick(12, 120)
+		x.Each(n, func(i int) {
+			r := x.Rand(fmt.Sprint("reissued-root", i))
+			w := richHonest(r)
+			alt := world.Reissue(w.PKI.Root, nil, func(t *x509Cert) {
+				t.SerialNumber = world.NextSerial()
+				t.NotBefore, t.NotAfter = t.NotBefore.Add(-time.Duration(1+i%5)*24*time.Hour), t.NotAfter.Add(-time.Duration(1+i%7)*24*time.Hour)
+			})
+			w.Q.Chain = world.ChainPEM(i%2 == 0, w.PKI.Leaf, w.PKI.Inter, alt)
+			for _, l := range levels {
+				c := w.Case(l, "honest-reissued-root-in-quote", fmt.Sprintf("w%d", i))
+				c.Form, c.Expect = mon.Forms[(i+l)%4], "accept"
+				check(x, i, c)
+			}
+		})
+		x.Require("honest-reissued-root-in-quote", n*3, 0, n*3)
+	}
 	// signatures whose r or s is a small number (one or two leading zero bytes; probability 2^-8 / 2^-16 per signature, so
 	// they are ground out): the quote signature, the QE report signature and the two collateral signatures
 	{
